@@ -2,7 +2,7 @@
 //! entry point after each read. Also the input generators for it (inputs only, no expectations).
 
 use crate::proj::{all_entry_points, huge_entry_points, inplace_entry_points};
-use crate::util::{flat, rl, unflat, unrl, Rng};
+use crate::util::{flat, rl, unflat, unrl, Rng, KNOWN_PORTS, KNOWN_V4, KNOWN_V6};
 use serde_json::{json, Value};
 use std::io::Write;
 
@@ -1149,6 +1149,30 @@ pub fn generate(name: &str, count: usize, rng: &mut Rng, sink: &mut dyn FnMut(Se
                 if i % 4 == 0 { bytes.extend_from_slice(b"GET /"); }
                 let chunks = if i % 2 == 0 { vec![bytes.clone()] } else { split_each(&bytes) };
                 sink(Session { sid: format!("v1prefix-{}", i), tag: json!({"g": "v1prefix"}), chunks, huge: None, consume: false, inplace: false, prelude: Vec::new() });
+            }
+        }
+        // well-known endpoints: one address per special range (loopback, private, link-local, CGNAT,
+        // documentation, multicast, broadcast, unspecified, mapped, NAT64, 6to4, ULA ...) and
+        // well-known ports, in both roles, as text lines (canonical spelling) and as binary headers
+        "known" => {
+            for i in 0..count {
+                let (sp, dp) = (KNOWN_PORTS[i % 14], KNOWN_PORTS[(i / 14 + 3) % 14]);
+                let bytes: Vec<u8> = match i % 4 {
+                    0 => { let (a, b) = (KNOWN_V4[i / 4 % 24], KNOWN_V4[(i / 4 / 24 + i / 4 * 7 + 5) % 24]);
+                           format!("PROXY TCP4 {}.{}.{}.{} {}.{}.{}.{} {} {}\r\n", a[0], a[1], a[2], a[3], b[0], b[1], b[2], b[3], sp, dp).into_bytes() }
+                    1 => { let (a, b) = (KNOWN_V6[i / 4 % 18], KNOWN_V6[(i / 4 * 5 + 7) % 18]);
+                           format!("PROXY TCP6 {} {} {} {}\r\n", std::net::Ipv6Addr::from(a), std::net::Ipv6Addr::from(b), sp, dp).into_bytes() }
+                    2 => { let (a, b) = (KNOWN_V4[i / 4 % 24], KNOWN_V4[(i / 4 * 7 + 5) % 24]);
+                           let mut body = a.to_vec(); body.extend_from_slice(&b); body.extend_from_slice(&sp.to_be_bytes()); body.extend_from_slice(&dp.to_be_bytes());
+                           if i % 8 == 2 { body.extend_from_slice(&[4, 0, 1, 0]); }
+                           v2_header(0x20 | ((i / 8) % 2) as u8, 0x10 | (1 + (i / 16) % 2) as u8, body.len() as u16, &body) }
+                    _ => { let (a, b) = (KNOWN_V6[i / 4 % 18], KNOWN_V6[(i / 4 * 5 + 7) % 18]);
+                           let mut body: Vec<u8> = a.iter().flat_map(|g| g.to_be_bytes()).collect(); body.extend(b.iter().flat_map(|g| g.to_be_bytes()));
+                           body.extend_from_slice(&sp.to_be_bytes()); body.extend_from_slice(&dp.to_be_bytes());
+                           v2_header(0x21, 0x20 | (1 + (i / 16) % 2) as u8, body.len() as u16, &body) }
+                };
+                let chunks = if i % 5 == 0 { split_each(&bytes) } else { vec![bytes.clone()] };
+                sink(Session { sid: format!("known-{}", i), tag: json!({"g": "known"}), chunks, huge: None, consume: false, inplace: false, prelude: Vec::new() });
             }
         }
         // arbitrary bytes over small alphabets, incl. multi-byte characters next to CR
